@@ -712,6 +712,115 @@ fn c06_nonrepresentable(cfg: &Config, rank0: u64, acc: &mut Acc) {
 }
 
 
+/// State enum with a data-carrying variant (supported by the `State` / `enum_map::Enum` derive): `P(false)` and
+/// `P(true)` are distinct states that share their variant.
+#[derive(Clone, Copy, Debug, Default, PartialEq, Eq, State)]
+pub enum SD {
+    #[default]
+    U1,
+    P(bool),
+    U2,
+}
+
+fn sd_of(s: S4) -> SD {
+    match s {
+        S4::X => SD::P(false),
+        S4::Y => SD::P(true),
+        S4::U1 => SD::U1,
+        S4::U2 => SD::U2,
+    }
+}
+
+/// Twin companion (C05, C07): the animator's behaviour depends on which states are EQUAL, not on how the state type
+/// is written. The same configuration is built once over the fieldless `S4` and once over `SD`, whose two animated
+/// states are `P(false)` / `P(true)`; every history of set_state (4 states) / advance up to depth 5 (6 in thorough)
+/// is replayed on both and current state, values (bit-exact) and is_ended must agree after every operation.
+fn state_type_twin(thorough: bool, acc: &mut Acc) {
+    let p = pool(0);
+    let pairs: Vec<(usize, usize)> = vec![(0, 1), (1, 0), (0, 3), (2, 5), (4, 0), (1, 6)].into_iter().filter(|(a, b)| *a < p.len() && *b < p.len()).collect();
+    let ops: Vec<Op> = vec![Op::Adv(0.25), Op::Adv(1.0), Op::Adv(8.0), Op::Set(S4::X), Op::Set(S4::Y), Op::Set(S4::U1), Op::Set(S4::U2)];
+    let depth = if thorough { 6 } else { 5 };
+    let inits = [S4::X, S4::U1];
+    let jobs: Vec<(usize, usize, S4)> = pairs.iter().flat_map(|&(x, y)| inits.iter().map(move |&i| (x, y, i))).collect();
+    let res = par_fold(
+        jobs.len(),
+        Acc::default,
+        |ji, acc| {
+            let (xi, yi, init) = jobs[ji];
+            let cfg = Config::new(xi, yi, 0);
+            let total = ops.len().pow(depth as u32);
+            for code in 0..total {
+                let mut a = cfg.build(init);
+                let mut b = StateAnimatorBuilder::<SD, PTimeline>::new().from_state(sd_of(init)).from_values(initial_values()).on(SD::P(false), cfg.merged[0].clone()).on(SD::P(true), cfg.merged[1].clone()).build();
+                let mut c = code;
+                let mut h: Vec<Op> = vec![];
+                acc.histories += 1;
+                for _ in 0..depth {
+                    let op = ops[c % ops.len()];
+                    c /= ops.len();
+                    h.push(op);
+                    apply(&mut a, &op);
+                    match op {
+                        Op::Adv(d) => b.advance(d),
+                        Op::Set(st) => b.set_state(&sd_of(st)),
+                    }
+                    acc.ops += 1;
+                    acc.checks += 1;
+                    if matches!(op, Op::Set(_)) {
+                        acc.nontrivial += 1;
+                    }
+                    let same = sd_of(*a.current_state()) == *b.current_state() && a.current_values().bits() == b.current_values().bits() && a.is_ended() == b.is_ended();
+                    if !same {
+                        let clause = if sd_of(*a.current_state()) != *b.current_state() { "current-state" } else if a.is_ended() != b.is_ended() { "is-ended" } else { "values" };
+                        acc.sink.add(&format!("state-type-dependence:{clause}"), (1u64 << 50) | (ji as u64) << 32 | (h.len() as u64) << 28 | code as u64 % (1 << 28), || {
+                            (format!("after [{}]: over the fieldless state enum: state {:?} values {:?} ended={}; over the enum whose animated states are P(false)/P(true): state {:?} values {:?} ended={}", hname(&h), a.current_state(), a.current_values(), a.is_ended(), b.current_state(), b.current_values(), b.is_ended()), json!({"twin": "state enum with a data variant: X = P(false), Y = P(true), U1, U2", "config": cfg.to_json(), "initial_state": format!("{init:?}"), "history": h.iter().map(|o| o.to_json()).collect::<Vec<_>>()}))
+                        });
+                        break;
+                    }
+                }
+            }
+        },
+        merge,
+    );
+    merge(acc, res);
+}
+
+/// C06 companion with astronomically long (but finite, exactly representable) steps: a 2^36 s timeline; one
+/// advance(2^35) against two advance(2^34), one advance(2^36) against two advance(2^35), also with zero-length
+/// advances in between - values, is_ended and the clock must agree exactly.
+fn c06_huge_steps(acc: &mut Acc) {
+    let total = 68_719_476_736.0f32; // 2^36 s
+    let spec = TlSpec {
+        kfs: vec![Kf { pos: 0.0, a: Some(0.0), k: Some(0), d: None, easing: None }, Kf { pos: 1.0, a: Some(1024.0), k: Some(4096), d: None, easing: None }],
+        default_easing: 0,
+        timing: Timing::new(total, 0.0, Rep::None, false),
+    };
+    let build = || StateAnimatorBuilder::<S4, PTimeline>::new().from_state(S4::X).from_values(P::default()).on(S4::X, spec.builder()).build();
+    for (ci, &(whole, parts)) in [(34_359_738_368.0f32, 2usize), (68_719_476_736.0, 2), (68_719_476_736.0, 4), (137_438_953_472.0, 2), (1_099_511_627_776.0, 4)].iter().enumerate() {
+        for zeros in [false, true] {
+            let mut a = build();
+            for _ in 0..parts {
+                a.advance(whole / parts as f32);
+                if zeros {
+                    a.advance(0.0);
+                }
+            }
+            let mut b = build();
+            b.advance(whole);
+            acc.histories += 2;
+            acc.ops += parts as u64 + 1;
+            acc.checks += 1;
+            acc.nontrivial += 1;
+            let (oa, ob) = (observe(&a), observe(&b));
+            if oa.values.bits() != ob.values.bits() || oa.ended != ob.ended || oa.time != ob.time {
+                acc.sink.add("schedule-dependence:huge-steps", (1u64 << 49) | (ci as u64) << 1 | zeros as u64, || {
+                    (format!("{parts} x advance({:e}) gives {:?} ended={} clock {:?}; one advance({whole:e}) gives {:?} ended={} clock {:?} (timeline of {total:e} s)", whole / parts as f32, oa.values, oa.ended, oa.time, ob.values, ob.ended, ob.time), json!({"whole": whole, "parts": parts, "zero_advances_between": zeros, "timeline": spec.to_json()}))
+                });
+            }
+        }
+    }
+}
+
 /// C06 companion with very small steps (1 ns .. 1 us, i.e. around and below f32::EPSILON seconds): n such
 /// steps against one advance of their sum, on a timeline short enough (1.25 x the total) that the progress is
 /// most of the value range. Each step is within 1e-7 relative of a whole number of nanoseconds, so the two
@@ -1360,9 +1469,13 @@ pub fn run(run: Run, prop: Prop) -> ! {
     }
     if prop == Prop::C06 {
         c06_tiny_steps(&mut acc);
+        c06_huge_steps(&mut acc);
     }
     if prop == Prop::C04 || prop == Prop::C05 {
         nondyadic_companion(prop, thorough, &mut acc);
+    }
+    if prop == Prop::C05 || prop == Prop::C07 {
+        state_type_twin(thorough, &mut acc);
     }
     if prop == Prop::C05 {
         c05_omitted_from_values(&mut acc);
